@@ -1140,6 +1140,11 @@ class Context:
                     if byte_offset + length * element_size > buffer.byteLength:
                         raise JSRangeError("Invalid typed array length")
                 else:
+                    if (buffer.byteLength - byte_offset) % element_size:
+                        raise JSRangeError(
+                            "Invalid typed array length: the buffer does not "
+                            "hold a whole number of elements"
+                        )
                     length = (buffer.byteLength - byte_offset) // element_size
 
                 result = array_class(length)
